@@ -501,6 +501,26 @@ def m_fold(it, c, a):
         acc = it.call_closure(a[2], [acc, x])
 
 
+def m_try_fold(it, c, a):
+    """Iterator::try_fold with a closure returning Option/Result: stops at the first None/Err"""
+    src = a[0]; acc = val(a[1])
+    last = None
+    while True:
+        nx = m_next(it, c, [src])
+        if nx.variant == 0:
+            break
+        r = val(it.call_closure(a[2], [acc, nx.fields[0]]))
+        if not (isinstance(r, Agg) and r.name in ("Option", "Result")):
+            raise Unsupported(f"try_fold closure result {r!r}")
+        last = r
+        if (r.name == "Option" and r.variant == 0) or (r.name == "Result" and r.variant != 0):
+            return r
+        acc = r.fields[0]
+    kind = "Result" if "Result<" in c.split("try_fold", 1)[1] else "Option"
+    if last is not None: kind = last.name
+    return Agg("enum", kind, [acc], 1 if kind == "Option" else 0)
+
+
 def m_all_any(kind):
     def f(it, c, a):
         r = val(a[0])
@@ -682,6 +702,7 @@ MODELS = [
     (R(r" as (DoubleEnded)?Iterator>::rev$"), m_rev),
     (R(r" as Iterator>::for_each::<"), m_for_each),
     (R(r" as Iterator>::fold::<"), m_fold),
+    (R(r" as Iterator>::try_fold::<"), m_try_fold),
     (R(r" as Iterator>::find::<"), m_find),
     (R(r" as Iterator>::position::<"), m_position),
     (R(r" as Iterator>::all::<"), m_all_any("all")),
